@@ -222,6 +222,8 @@ class Variable:
     # ---------------------------------------------------------------- basic props
     @property
     def unit(self):
+        if self._bins is not None:
+            return self._bins.unit
         return self._unit
 
     @unit.setter
@@ -273,6 +275,13 @@ class Variable:
         WRITE_LOG.append(self._buf)
 
     def _new(self, arr, dims=None, unit=SAME, dtype=None, var=None, rnd=None, buf=None):
+        out = self._new0(arr, dims, unit, dtype, var, rnd, buf)
+        if self._bins is not None and out._dtype == self._dtype:
+            from .bins import Bins
+            out._bins = Bins(out)
+        return out
+
+    def _new0(self, arr, dims=None, unit=SAME, dtype=None, var=None, rnd=None, buf=None):
         return Variable(
             _arr=arr,
             _var=var,
@@ -328,8 +337,10 @@ class Variable:
     def copy(self, deep=True):
         if not deep:
             return self
+        if self._bins is not None:
+            from .bins import map_contents
+            return map_contents(self, lambda d: d.copy())
         out = self._new(self._a.copy(), var=None if self._v is None else self._v.copy())
-        out._bins = None if self._bins is None else self._bins.copy()
         return out
 
     def __copy__(self):
@@ -353,6 +364,8 @@ class Variable:
             out._bins = self._bins.astype(dt)
             return out
         a = self._a
+        if self._dtype.name == 'bool' and dt.name in _INTS + _FLOATS:
+            return self._new(_map1(lambda b: R.lift(1) if bool(b) else R.lift(0), a), dtype=dt, unit=self._unit)
         if dt.name in _INTS and self._dtype.name in _FLOATS:
             raise C.Unsupported('float->int conversion')
         rnd = self._rnd
@@ -377,9 +390,12 @@ class Variable:
         if isinstance(key, tuple) and len(key) == 2 and isinstance(key[0], str):
             dim, idx = key
         elif isinstance(key, int | slice | R | np.integer) or (isinstance(key, Variable)):
-            if len(self.dims) != 1:
-                raise DimensionError('positional index needs 1-d')
-            dim, idx = self.dims[0], key
+            if isinstance(key, Variable) and key.dtype == DType.bool and key.dims:
+                dim, idx = key.dims[0], key
+            else:
+                if len(self.dims) != 1:
+                    raise DimensionError('positional index needs 1-d')
+                dim, idx = self.dims[0], key
         elif key is Ellipsis:
             return self.dims, (Ellipsis,), self.dims
         else:
@@ -389,7 +405,8 @@ class Variable:
         ax = self.dims.index(dim)
         if isinstance(idx, Variable):
             if idx.dtype == DType.bool:
-                raise C.Unsupported('boolean variable indexing')
+                keep = [i for i, b in enumerate(idx._a.flat) if bool(b)]
+                return self.dims, (slice(None),) * ax + (keep,), dim
             raise C.Unsupported('label-based indexing')
         if isinstance(idx, R):
             idx = idx.__index__()
